@@ -402,7 +402,11 @@ func Run(c *core.Ctx) {
 		g := core.NewGraph()
 		g.IsSet = func(path []string) bool { return len(path) == 0 }
 		var conf cfg
-		r := c.ModelCheck("MC_Trie", mcCfg(mode, p.size, p.expMax, true), tlc.Opts{OnTag: func(tag, js string) {
+		expSize := p.size
+		if p.size == "L" && mode == "mqtt" {
+			expSize = "S" // (the L graph has 14.5 M edges with '#': the S graph is exported, completely)
+		}
+		r := c.ModelCheck("MC_Trie", mcCfg(mode, expSize, p.expMax, true), tlc.Opts{OnTag: func(tag, js string) {
 			switch tag {
 			case "EDGE":
 				if err := g.AddJSON(js); err != nil {
